@@ -114,6 +114,10 @@ def conv_case(rnd, cls, with_q=True):
   ws = [np.random.RandomState(rnd.randint(0, 10 ** 6)).uniform(-1.2, 1.2, v.shape).astype(np.float32) for v in lay.get_weights()]
   if usebias:
     ws[-1] = np.random.RandomState(rnd.randint(0, 10 ** 6)).uniform(-3, 3, ws[-1].shape).astype(np.float32)
+  if groups > 1 and not with_q:
+    # the stock layer runs grouped convolutions through a jit-compiled op (another summation order): the comparison
+    # without quantizers is bit-exact only when every partial sum is exact, so these weights live on the 2^-3 grid
+    ws = [np.round(w * 8.0).astype(np.float32) / np.float32(8.0) for w in ws]
   lay.set_weights(ws)
   del log[:]
   xin = tf.constant(to_cf(x))
@@ -402,17 +406,20 @@ def rnn_case(rnd, cls):
   if usebias and present["bias"]:
     kw["bias_quantizer"] = Proxy(BQ(), "bias", log)
   impl = rnd.choice([1, 2]) if cls != "QSimpleRNN" else None
+  # sequence options shared with the stock layer
+  kw.update(return_sequences=rnd.random() < 0.5, go_backwards=rnd.random() < 0.3, unroll=rnd.random() < 0.2)
+  seqkw = {k: kw[k] for k in ("return_sequences", "go_backwards", "unroll")}
   if cls == "QSimpleRNN":
     lay = QSimpleRNN(units, **kw)
-    st = L.SimpleRNN(units, use_bias=usebias, activation=lay.cell.activation)
+    st = L.SimpleRNN(units, use_bias=usebias, activation=lay.cell.activation, **seqkw)
   elif cls == "QLSTM":
     lay = QLSTM(units, implementation=impl, **kw)
     st = L.LSTM(units, use_bias=usebias, implementation=impl, activation=lay.cell.activation,
-                recurrent_activation=lay.cell.recurrent_activation, unit_forget_bias=False)
+                recurrent_activation=lay.cell.recurrent_activation, unit_forget_bias=False, **seqkw)
   else:
     lay = QGRU(units, implementation=impl, reset_after=False, **kw)
     st = L.GRU(units, use_bias=usebias, implementation=impl, reset_after=False, activation=lay.cell.activation,
-               recurrent_activation=lay.cell.recurrent_activation)
+               recurrent_activation=lay.cell.recurrent_activation, **seqkw)
   x = np.array([rnd.randint(-4, 4) for _ in range(steps * feat)], dtype=np.float32).reshape((1, steps, feat)) * 2.0 ** SX
   lay.build((None, steps, feat))
   ws = [np.random.RandomState(rnd.randint(0, 10 ** 6)).uniform(-1.2, 1.2, v.shape).astype(np.float32) for v in lay.get_weights()]
